@@ -276,6 +276,21 @@ func genC03(w *World, res *CheckResult) {
 						e.AddVC(cell+"/rule", "post", fn.String(), o.St, Not(Eq(Not(rejected), want)), "the operator is accepted exactly when the documented typing rule admits these operand types")
 					}
 					e.AddVC(cell+"/rejects", "post", fn.String(), o.St, And(af, Not(rejected)), "an operation that fails for a type reason on every value of these types is rejected")
+					if op.resKind == 0 && op.helper != "range" && len(o.Res) == 1 && l.T != nil && r.T != nil {
+						// arithmetic: the static result kind is the dynamic kind of the helper's result
+						_, ln := l.T.(*types.Named)
+						_, rn := r.T.(*types.Named)
+						if !ln && !rn {
+							rk := rtKind(o.Res[0].One())
+							for i, rv := range d.results {
+								s2 := o.St.Clone()
+								for _, p := range d.states[i].pc {
+									s2.Assume(p)
+								}
+								e.AddVC(cell+"/result-kind", "post", fn.String(), s2, And(Not(rejected), Not(Eq(rk, kindOfVal(rv)))), "the static result kind is the dynamic kind of every successful result")
+							}
+						}
+					}
 					if op.resKind != 0 && len(o.Res) == 1 {
 						rk := rtKind(o.Res[0].One())
 						for i, rv := range d.results {
@@ -567,4 +582,17 @@ func genCheckerConditional(w *World, res *CheckResult) {
 			}
 		}
 	}
+}
+
+
+// kindOfVal: the reflect.Kind of a dynamic value of a predeclared basic type.
+func kindOfVal(v *Term) *Term {
+	out := BV64(0)
+	for _, c := range []struct {
+		ctor string
+		kind int64
+	}{{"VBool", 1}, {"VInt", 2}, {"VInt8", 3}, {"VInt16", 4}, {"VInt32", 5}, {"VInt64", 6}, {"VUint", 7}, {"VUint8", 8}, {"VUint16", 9}, {"VUint32", 10}, {"VUint64", 11}, {"VF32", 13}, {"VF64", 14}, {"VStr", 24}} {
+		out = Ite(Is(c.ctor, v), BV64(c.kind), out)
+	}
+	return out
 }
